@@ -65,13 +65,67 @@
           correctness of secretbox, field ok_sb of crypto_ok: needed by the model theorem); Forall sam_ok M;
           sam_headers_distinct M.  (No bound on the input length: the model theorem has none.)
       go_SigncryptOpen_anonymous_authentic_nil_error: from ORet [VNil; body; VNil].
-   STREAMING FORMS: not in this version (in progress). *)
+   STREAMING FORMS (5-7): the constructors and the per-chunk release.
+   What is composed.  (a) The constructor ties of GoAstProofs7c.v (go_NewDecryptStream, go_NewVerifyStream,
+   go_NewSigncryptOpenStream): with err == nil the translated constructor returns the MessageKeyInfo / signing key / sender and
+   newChunkReader(obj) = g_cr_new obj, obj being the receiver object that holds the model's state after the header (g_ds_done,
+   g_vs_key, g_sos_done) and the input bytes not yet consumed.  (b) The per-chunk ties of GoAstProofs4b.v, RE-PROVED HERE ON
+   THESE OBJECTS (go_decrypt_getNextChunk_obj, go_verify_getNextChunk_obj, go_signcrypt_getNextChunk_obj: the lemmas of 4b are
+   stated on objects with only the fields getNextChunk uses; the constructors' objects have more fields, another order and,
+   for verifyStream, the key OBJECT in publicKey; the same proof scripts go through).  For verifyStream the extern is
+   [ext_chunk_key]: verifyStream.processBlock on a receiver holding the key object means what GoAstProofs4b.ext_chunk says on
+   the receiver holding the key's bytes; every other call as ext_chunk.  go_verify_getNextChunk_obj_bad_version: for a major
+   version other than 1, 2 (a Single validator can accept one) readSignatureBlock panics and the first call is stuck, so nothing
+   is released: no hypothesis on the validator is needed.  For decryptStream a successful processHeader implies major 1 or 2
+   (process_enc_header_ver12).  (c) The model's loops are iterations of their steps (4b: decrypt_loop_dec_step,
+   verify_loop_step, sc_open_loop_step; here *_loop_step_loop).  (d) [go_drain ext fn recv F obj]: a caller's loop: at most F
+   calls of the translated getNextChunk, each run by the evaluator ON THE OBJECT THE PREVIOUS CALL LEFT in the receiver,
+   stopping at the first non-nil error; result: the chunks returned, in order, and the ending error (None: calls exhausted or
+   evaluator stuck).  go_drain_step_loop / go_drain_canonical / go_drain_auth: for every F <= 2^64 these chunks are those the
+   model's loop releases (a prefix of them if the calls ran out or the evaluator got stuck, i.e. the model says Unmodelled /
+   panic) and the ending error is the Go value of the model's ending.  (e) The model's STREAMING authenticity theorems
+   (open_authentic_located = C02_authentic, attached_authentic_located = C06_authentic, signcrypt_authentic_located =
+   C04_authentic, signcrypt_anon_authentic_located).
+   In the conclusions, d = go_drain ... F obj, fst d = chunks ++ tl with tl = [] or [[]]: the call that returns the non-nil
+   error returns a chunk value too, and it is nil unless that call delivered the final packet (then the chunk, possibly empty, is
+   the last of `chunks`, as in the model).  "clean end" is snd d = Some io.EOF.
+   5. go_NewDecryptStream_authentic  (C02 streaming)
+        If the translated NewDecryptStream on (VV, r, RING), r an error-free reader over `input`, returns [mk; rdr; nil], then
+        mk = g_mki m k (snd k = mki_receiver m), rdr = g_cr_new obj, and if m names the honest sender then for EVERY F <= 2^64:
+        either no chunk and no clean end; or `chunks` is a PREFIX of the chunk list of ONE message of L addressed to this
+        recipient, and all of it if the end is clean; or EncBreakL.
+        Hypotheses: crypto_ok c; Forall (em_ok c s_sk) L; em_headers_distinct c s_sk L; |input| < 2^64; rdr_bytes r = Some input
+        (which bytes r holds); the call returns [mk; rdr; nil]; then mki_sender m = dh_pub c s_sk, mki_sender_anon m = false,
+        N.of_nat F <= 2^64 (Go's uint64 packet counter: the 4b tie needs n < 2^64 at every call).
+   6. go_NewVerifyStream_authentic  (C06 streaming)
+        The same for NewVerifyStream: sg = g_spk pk, rdr = g_cr_new obj; prefix of map fst ps of ONE EvAttached v nonce ps of L.
+        Hypotheses: forall x, |sha512 c x| = 64; Forall event_ok L; |input| < 2^64; rdr_bytes r = Some input; the call returns
+        [sg; rdr; nil]; then headers_distinct pk L; len pk < 2^32; N.of_nat F <= 2^64.
+   7. go_NewSigncryptOpenStream_authentic (named: the call returns [VBytes pk; rdr; nil]) and
+      go_NewSigncryptOpenStream_anonymous_authentic ([nil; rdr; nil])  (C04 streaming)
+        Hypotheses: forall x, |sha512 c x| = 64; (anonymous: secretbox correctness Hsb); Forall sm_ok M; sm_headers_distinct M;
+        Forall other_ok others (anonymous: Forall sam_ok M; sam_headers_distinct M); |input| < 2^64 (needed here also in the
+        anonymous case, for the packet counter of the 4b tie); rdr_bytes r = Some input; N.of_nat F <= 2^64.
+   ex_streams: the statements on concrete inputs (toy primitives): genuine messages are released whole with io.EOF, a truncated
+   one gives io.ErrUnexpectedEOF, trailing garbage ErrTrailingGarbage.
+   WHAT IS NOT COMPOSED (streaming).  (1) chunkReader.Read, which re-slices the chunks into the caller's buffers, is tied in
+   GoAstProofs4c.v (go_chunkReader_Read) on an encoding where r.chunker is the LIST of the chunker's pending (chunk, error)
+   results and r.chunker.getNextChunk() an extern that pops it (chunks as VBytes, errors under 4c's names).  Composing it with
+   go_drain needs go_chunkReader_Read re-proved for an extern that RUNS the translated getNextChunk on the receiver object
+   (possible: an extern may call run_func2) and for 4b's encodings (nil for an empty chunk, 4b's error values): a re-proof of the
+   for-loop argument of 4c, not done here.  What links the two now: the sequence of (chunk, error) results go_drain observes
+   is the sequence of results r.chunker.getNextChunk() delivers, and go_chunkReader_Read says Read hands out exactly those
+   chunks, in order, re-sliced, and then the error (at the model level StreamProofs.cr_drain_sound / cr_drain_complete: whatever
+   buffer sizes the caller uses, the bytes read are the concatenation of the pending chunks up to the first error).  So 5-7 speak about the sequence of getNextChunk results, not about the
+   bytes Read puts into p.  (2) Inside Open / Verify / SigncryptOpen the pair (constructor, io.ReadAll) is an extern with the
+   model's meaning; 5-7 justify that meaning up to (1).  (3) The limits of GoAstProofs7c.v: error-free reader over given
+   bytes, value copies for &ds.mki and newChunkReader(ds), opaque validator / keyring / resolver values. *)
 From Coq Require Import List String NArith ZArith Bool Lia.
 From Coq.Strings Require Import Byte.
 From SP Require Import Bytes Consts Params Msgpack Crypto Errors Nonce Packets Chunker Rand Sign Verify Encrypt Decrypt Signcrypt
      SignAuthProofs EncryptProofs EncAuthProofs EncAuthLocated ScAuthProofs ScAuthLocated ScAnonLocated SignAuthLocated
      GoLang GoLang2 GoAst GoAstProofs GoAstProofs2 GoAstProofs3 GoAstProofs4a GoAstProofs4b GoAstProofs5a GoAstProofs7c.
-From SP Require Import GoAstOpen.
+From SP Require Import GoAstOpen GoAstRecv.
 Import ListNotations.
 Local Open Scope string_scope.
 
@@ -326,6 +380,7 @@ Proof.
   rewrite (go_VerifyDetached c vd kr VV KR msg sigfile). exact Hcl.
 Qed.
 
+(* (TARGET) *)
 Theorem go_VerifyDetachedReader_authentic_nil_error (vd : validator) (kr : sigring) (VV KR : gval) (msg : bytes)
         (rerr : option (string * list gval)) (sigfile : bytes) (sg : gval) (L : list sign_event) :
   Forall event_ok L ->
@@ -429,6 +484,787 @@ Proof.
 Qed.
 End ScAuth.
 
+
+(* ====================================================================================================== *)
+(* ================= STREAMING FORMS: the constructors and repeated getNextChunk ================= *)
+(* ====================================================================================================== *)
+
+(* ---------- list_prefix ---------- *)
+Lemma list_prefix_nil_r {A} (p : list A) : list_prefix p [] -> p = [].
+Proof. destruct p; [reflexivity|intros []]. Qed.
+Lemma list_prefix_refl {A} (p : list A) : list_prefix p p.
+Proof. induction p; cbn [list_prefix]; auto. Qed.
+Lemma list_prefix_trans {A} (p q r : list A) : list_prefix p q -> list_prefix q r -> list_prefix p r.
+Proof.
+  revert q r. induction p as [|x p IH]; intros q r H1 H2; [exact I|].
+  destruct q as [|y q]; [destruct H1|]. destruct r as [|z r]; [destruct H2|].
+  cbn [list_prefix] in *. destruct H1 as [-> H1]. destruct H2 as [-> H2]. split; [reflexivity|]. exact (IH q r H1 H2).
+Qed.
+
+(* ================= a caller draining a receiver object by repeated getNextChunk ================= *)
+Section Drain.
+Variables (ext : externs) (fn : gfunc) (recv : string).
+
+(* at most [fuel] calls of the translated getNextChunk, each run by the evaluator on the object the previous call
+   left in the receiver; stops at the first non-nil error.  Result: the chunks the calls returned, in order (nil
+   = the empty chunk), and the error that ended the stream (None: the calls ran out, or the evaluator was stuck /
+   panicked / returned something else) *)
+Fixpoint go_drain (fuel : nat) (obj : gval) : list bytes * option gval :=
+  match fuel with
+  | O => ([], None)
+  | S f =>
+    let r := run_func2 ext fn [obj] in
+    match fst r with
+    | ORet [ch; VNil] =>
+      match vbytes_of ch, lookup recv (snd r) with
+      | Some b, Some obj' => let cs := go_drain f obj' in (b :: fst cs, snd cs)
+      | _, _ => ([], None)
+      end
+    | ORet [ch; ev] => match vbytes_of ch with Some b => ([b], Some ev) | None => ([], None) end
+    | _ => ([], None)
+    end
+  end.
+
+(* the model's loops, as a function of their step *)
+Variable step : N -> bytes -> result (bytes * bool * bytes).
+Fixpoint step_loop (fuel : nat) (n : N) (input : bytes) : list bytes * err :=
+  match fuel with
+  | O => ([], Unmodelled)
+  | S f =>
+    match step n input with
+    | Err e => ([], e)
+    | Ok (ch, true, rest) => ([ch], assert_end_of_stream rest)
+    | Ok (ch, false, rest) => let r := step_loop f (n + 1) rest in (ch :: fst r, snd r)
+    end
+  end.
+
+Hypothesis step_shrinks : forall n input ch final rest,
+  step n input = Ok (ch, final, rest) -> (List.length rest < List.length input)%nat.
+
+Lemma step_loop_enough : forall F F' n input,
+  (List.length input < F)%nat -> (List.length input < F')%nat -> step_loop F n input = step_loop F' n input.
+Proof.
+  induction F as [|F IH]; intros F' n input H1 H2; [lia|].
+  destruct F' as [|F']; [lia|]. cbn [step_loop].
+  destruct (step n input) as [[[ch final] rest]|e] eqn:Es; [|reflexivity].
+  destruct final; [reflexivity|].
+  pose proof (step_shrinks _ _ _ _ _ Es) as Hs.
+  rewrite (IH F' (n + 1)%N rest); [reflexivity|lia|lia].
+Qed.
+Lemma step_loop_stable : forall F F' n input,
+  GoAstProofs4b.g_err (snd (step_loop F n input)) <> None -> (F <= F')%nat -> step_loop F' n input = step_loop F n input.
+Proof.
+  induction F as [|F IH]; intros F' n input H1 H2; [exfalso; apply H1; reflexivity|].
+  destruct F' as [|F']; [lia|]. cbn [step_loop] in *.
+  destruct (step n input) as [[[ch final] rest]|e] eqn:Es; [|reflexivity].
+  destruct final; [reflexivity|]. cbn [snd] in H1.
+  rewrite (IH F' (n + 1)%N rest H1); [reflexivity|lia].
+Qed.
+Lemma step_loop_prefix : forall F F' n input,
+  (F <= F')%nat -> list_prefix (fst (step_loop F n input)) (fst (step_loop F' n input)).
+Proof.
+  induction F as [|F IH]; intros F' n input H; [exact I|].
+  destruct F' as [|F']; [lia|]. cbn [step_loop].
+  destruct (step n input) as [[[ch final] rest]|e] eqn:Es; [|exact I].
+  destruct final; [apply list_prefix_refl|]. cbn [fst list_prefix]. split; [reflexivity|]. apply IH. lia.
+Qed.
+
+Variables (enc : bytes -> gval) (obj : N -> bytes -> gval).
+Hypothesis enc_bytes : forall b, vbytes_of (enc b) = Some b.
+Hypothesis Hspec : forall n input, (n < 18446744073709551616)%N ->
+  chunk_spec recv enc (fun rest => obj (n + 1)%N rest) (step n input) (run_func2 ext fn [obj n input]).
+
+Lemma go_drain_step_loop : forall F n input,
+  (n + N.of_nat F <= 18446744073709551616)%N ->
+  match GoAstProofs4b.g_err (snd (step_loop F n input)) with
+  | Some ev => exists tl, (tl = [] \/ tl = [[]]) /\ go_drain F (obj n input) = ((fst (step_loop F n input) ++ tl)%list, Some ev)
+  | None => exists cs, list_prefix cs (fst (step_loop F n input)) /\ go_drain F (obj n input) = (cs, None)
+  end.
+Proof.
+  induction F as [|F IH]; intros n input Hn.
+  - cbn [step_loop snd GoAstProofs4b.g_err go_drain]. exists []. split; [exact I|reflexivity].
+  - assert (Hn1 : (n < 18446744073709551616)%N) by lia.
+    pose proof (Hspec n input Hn1) as Hs. unfold chunk_spec in Hs.
+    cbn [step_loop go_drain]. cbv zeta.
+    destruct (step n input) as [[[ch final] rest]|e] eqn:Es.
+    + destruct final.
+      * cbn [fst snd].
+        destruct (GoAstProofs4b.g_err (assert_end_of_stream rest)) as [ev|] eqn:Hge.
+        -- destruct (g_err_verr _ _ Hge) as (nm & ar & ->). rewrite Hs, (enc_bytes ch).
+           exists []. split; [left; reflexivity|reflexivity].
+        -- rewrite Hs. exists []. split; [exact I|reflexivity].
+      * destruct Hs as [Hs1 Hs2]. rewrite Hs1, Hs2, (enc_bytes ch). cbn [fst snd].
+        assert (Hn2 : (n + 1 + N.of_nat F <= 18446744073709551616)%N) by lia.
+        specialize (IH (n + 1)%N rest Hn2).
+        destruct (GoAstProofs4b.g_err (snd (step_loop F (n + 1) rest))) as [ev|].
+        -- destruct IH as (tl & Htl & ->). exists tl. split; [exact Htl|reflexivity].
+        -- destruct IH as (cs & Hcs & ->). exists (ch :: cs). split; [split; [reflexivity|exact Hcs]|reflexivity].
+    + cbn [fst snd]. destruct (GoAstProofs4b.g_err e) as [ev|] eqn:Hge.
+      * destruct (g_err_verr _ _ Hge) as (nm & ar & ->). rewrite Hs. cbn [vbytes_of].
+        exists [[]]. split; [right; reflexivity|reflexivity].
+      * rewrite Hs. exists []. split; [exact I|reflexivity].
+Qed.
+
+(* whatever number F <= 2^64 of calls the caller allows: the chunks returned are, up to one trailing nil chunk
+   returned together with the error, a prefix of what the model's loop releases at any sufficient fuel Fc; and if the
+   calls ended with an error value, they are all of it and the error is the Go value of the model's ending *)
+Lemma go_drain_canonical (F Fc : nat) (n : N) (input : bytes) :
+  (n + N.of_nat F <= 18446744073709551616)%N -> (List.length input < Fc)%nat ->
+  exists chunks tl,
+    fst (go_drain F (obj n input)) = (chunks ++ tl)%list /\ (tl = [] \/ tl = [[]]) /\
+    list_prefix chunks (fst (step_loop Fc n input)) /\
+    (forall ev, snd (go_drain F (obj n input)) = Some ev ->
+                chunks = fst (step_loop Fc n input) /\ GoAstProofs4b.g_err (snd (step_loop Fc n input)) = Some ev).
+Proof.
+  intros Hn HFc. pose proof (go_drain_step_loop F n input Hn) as H.
+  destruct (GoAstProofs4b.g_err (snd (step_loop F n input))) as [ev|] eqn:Hge.
+  - destruct H as (tl & Htl & Hd).
+    assert (Heq : step_loop Fc n input = step_loop F n input).
+    { destruct (Nat.le_gt_cases F Fc) as [Hle|Hgt].
+      - apply step_loop_stable; [rewrite Hge; discriminate|exact Hle].
+      - apply step_loop_enough; lia. }
+    exists (fst (step_loop F n input)), tl. rewrite Hd, Heq. cbn [fst snd].
+    split; [reflexivity|]. split; [exact Htl|]. split; [apply list_prefix_refl|].
+    intros ev' Hev. injection Hev as <-. split; [reflexivity|exact Hge].
+  - destruct H as (cs & Hcs & Hd). exists cs, []. rewrite Hd. cbn [fst snd]. rewrite app_nil_r.
+    split; [reflexivity|]. split; [left; reflexivity|]. split; [|intros ev Hev; discriminate Hev].
+    apply (list_prefix_trans _ _ _ Hcs).
+    destruct (Nat.le_gt_cases F Fc) as [Hle|Hgt].
+    + apply step_loop_prefix. exact Hle.
+    + rewrite (step_loop_enough Fc F n input); [apply list_prefix_refl|lia|lia].
+Qed.
+End Drain.
+
+Lemma g_err4b_eof_inv (e : err) : GoAstProofs4b.g_err e = Some (VErr "io.EOF" []) -> e = EOF.
+Proof. destruct e; cbn [GoAstProofs4b.g_err]; intros H; try discriminate H; reflexivity. Qed.
+
+(* the shape of the model's streaming authenticity statements: nothing released and no clean end; or a prefix of one
+   candidate chunk list, all of it on a clean end; or the break *)
+Definition auth_shape (Cand : list bytes -> Prop) (B : Prop) (chunks : list bytes) (clean : Prop) : Prop :=
+  (chunks = [] /\ ~ clean) \/
+  (exists full, Cand full /\ list_prefix chunks full /\ (clean -> chunks = full)) \/ B.
+
+Section DrainAuth.
+Variables (ext : externs) (fn : gfunc) (recv : string).
+Variable step : N -> bytes -> result (bytes * bool * bytes).
+Hypothesis step_shrinks : forall n input ch final rest,
+  step n input = Ok (ch, final, rest) -> (List.length rest < List.length input)%nat.
+Variables (enc : bytes -> gval) (obj : N -> bytes -> gval).
+Hypothesis enc_bytes : forall b, vbytes_of (enc b) = Some b.
+Hypothesis Hspec : forall n input, (n < 18446744073709551616)%N ->
+  chunk_spec recv enc (fun rest => obj (n + 1)%N rest) (step n input) (run_func2 ext fn [obj n input]).
+
+Lemma go_drain_auth (Cand : list bytes -> Prop) (B : Prop) (F Fc : nat) (n : N) (input : bytes) :
+  (n + N.of_nat F <= 18446744073709551616)%N -> (List.length input < Fc)%nat ->
+  auth_shape Cand B (fst (step_loop step Fc n input)) (snd (step_loop step Fc n input) = EOF) ->
+  exists chunks tl,
+    fst (go_drain ext fn recv F (obj n input)) = (chunks ++ tl)%list /\ (tl = [] \/ tl = [[]]) /\
+    auth_shape Cand B chunks (snd (go_drain ext fn recv F (obj n input)) = Some (VErr "io.EOF" [])).
+Proof.
+  intros Hn HFc HA.
+  destruct (go_drain_canonical ext fn recv step step_shrinks enc obj enc_bytes Hspec F Fc n input Hn HFc)
+    as (chunks & tl & Hd & Htl & Hp & Hev).
+  exists chunks, tl. split; [exact Hd|]. split; [exact Htl|].
+  destruct HA as [[H0 Hne]|[(full & Hc & Hpf & Hall)|Hb]].
+  - left. rewrite H0 in Hp. split; [exact (list_prefix_nil_r _ Hp)|].
+    intros Hcl. destruct (Hev _ Hcl) as [_ Hg]. exact (Hne (g_err4b_eof_inv _ Hg)).
+  - right; left. exists full. split; [exact Hc|]. split; [exact (list_prefix_trans _ _ _ Hp Hpf)|].
+    intros Hcl. destruct (Hev _ Hcl) as [-> Hg]. exact (Hall (g_err4b_eof_inv _ Hg)).
+  - right; right. exact Hb.
+Qed.
+End DrainAuth.
+
+(* ================= the model's three loops are step_loop of their steps ================= *)
+Section Loops.
+Variable c : crypto.
+
+Lemma decrypt_loop_step_loop (st : dec_state) : forall F n input acc,
+  decrypt_loop c F st n input acc =
+  mkOut (rev acc ++ fst (step_loop (dec_step c st) F n input)) (snd (step_loop (dec_step c st) F n input)).
+Proof.
+  induction F as [|F IH]; intros n input acc.
+  - cbn [decrypt_loop step_loop fst snd]. rewrite rev_append_rev. reflexivity.
+  - rewrite decrypt_loop_dec_step. cbn [step_loop].
+    destruct (dec_step c st n input) as [[[ch final] rest]|e]; [destruct final|]; cbn [fst snd].
+    + rewrite rev_append_rev. cbn [rev]. rewrite app_nil_r. reflexivity.
+    + rewrite IH. cbn [rev]. rewrite <- app_assoc. reflexivity.
+    + rewrite rev_append_rev. reflexivity.
+Qed.
+Lemma verify_loop_step_loop (v : version) (pk hh : bytes) : forall F n input acc,
+  verify_loop c F v pk hh n input acc =
+  mkOut (rev acc ++ fst (step_loop (verify_step c v pk hh) F n input)) (snd (step_loop (verify_step c v pk hh) F n input)).
+Proof.
+  induction F as [|F IH]; intros n input acc.
+  - cbn [verify_loop step_loop fst snd]. rewrite rev_append_rev. reflexivity.
+  - rewrite verify_loop_step. cbn [step_loop].
+    destruct (verify_step c v pk hh n input) as [[[ch final] rest]|e]; [destruct final|]; cbn [fst snd].
+    + rewrite rev_append_rev. cbn [rev]. rewrite app_nil_r. reflexivity.
+    + rewrite IH. cbn [rev]. rewrite <- app_assoc. reflexivity.
+    + rewrite rev_append_rev. reflexivity.
+Qed.
+Lemma sc_open_loop_step_loop (pkey : bytes) (signer : option bytes) (hh : bytes) : forall F n input acc,
+  sc_open_loop c F pkey signer hh n input acc =
+  mkOut (rev acc ++ fst (step_loop (sc_step c pkey signer hh) F n input)) (snd (step_loop (sc_step c pkey signer hh) F n input)).
+Proof.
+  induction F as [|F IH]; intros n input acc.
+  - cbn [sc_open_loop step_loop fst snd]. rewrite rev_append_rev. reflexivity.
+  - rewrite sc_open_loop_step. cbn [step_loop].
+    destruct (sc_step c pkey signer hh n input) as [[[ch final] rest]|e]; [destruct final|]; cbn [fst snd].
+    + rewrite rev_append_rev. cbn [rev]. rewrite app_nil_r. reflexivity.
+    + rewrite IH. cbn [rev]. rewrite <- app_assoc. reflexivity.
+    + rewrite rev_append_rev. reflexivity.
+Qed.
+
+Lemma dec_step_shrinks (st : dec_state) n input ch final rest :
+  dec_step c st n input = Ok (ch, final, rest) -> (List.length rest < List.length input)%nat.
+Proof.
+  unfold dec_step. destruct (read_packet input) as [[m r]|e] eqn:E; [|discriminate].
+  apply read_packet_suffix in E. cbv zeta. intros H.
+  destruct (negb _); [discriminate H|]. destruct (of_dres _) as [[[a b] f]|]; [|discriminate H].
+  destruct (dec_block_step _ _ _ _ _ _); [|discriminate H]. destruct (check_chunk_state _ _ _ _); [|discriminate H].
+  injection H as _ _ <-. exact E.
+Qed.
+Lemma verify_step_shrinks v pk hh n input ch final rest :
+  verify_step c v pk hh n input = Ok (ch, final, rest) -> (List.length rest < List.length input)%nat.
+Proof.
+  unfold verify_step. destruct (read_packet input) as [[m r]|e] eqn:E; [|discriminate].
+  apply read_packet_suffix in E. intros H.
+  destruct (negb _); [discriminate H|]. destruct (of_dres _) as [[[a b] f]|]; [|discriminate H].
+  destruct (attached_sig_input _ _ _ _ _ _); [|discriminate H]. destruct (negb _); [discriminate H|].
+  destruct (check_chunk_state _ _ _ _); [|discriminate H].
+  injection H as _ _ <-. exact E.
+Qed.
+Lemma sc_step_shrinks pkey signer hh n input ch final rest :
+  sc_step c pkey signer hh n input = Ok (ch, final, rest) -> (List.length rest < List.length input)%nat.
+Proof.
+  unfold sc_step. destruct (read_packet input) as [[m r]|e] eqn:E; [|discriminate].
+  apply read_packet_suffix in E. intros H.
+  destruct (of_dres _) as [[a f]|]; [|discriminate H].
+  destruct (sc_block_step _ _ _ _ _ _ _); [|discriminate H]. destruct (check_chunk_state _ _ _ _); [|discriminate H].
+  injection H as _ _ <-. exact E.
+Qed.
+
+(* processHeader succeeds only for major version 1 or 2 (computeMACKeyReceiver panics otherwise: Panic 8) *)
+Lemma process_enc_header_ver12 (vd : validator) (kr : keyring) (hh : bytes) (h : header) (m : mki) (st : dec_state) :
+  process_enc_header c vd kr hh h = Ok (m, st) -> (vmaj (ds_version st) = 1 \/ vmaj (ds_version st) = 2)%Z.
+Proof.
+  assert (Hk : forall v i a b d e x, mac_key_receiver c v i a b d e = Some x -> (vmaj v = 1 \/ vmaj v = 2)%Z).
+  { intros v i a b d e x. unfold mac_key_receiver.
+    destruct (vmaj v =? 1)%Z eqn:E1; [left; lia|]. destruct (vmaj v =? 2)%Z eqn:E2; [right; lia|discriminate]. }
+  unfold process_enc_header.
+  destruct (validate_enc_header vd h); cbn [bind]; [|discriminate].
+  destruct (negb (Nat.eqb (List.length (h_a h)) 32)); [discriminate|].
+  destruct (try_visible c kr (h_version h) (h_a h) (h_rcvs h)) as [[[[k pk] pos]|]|e]; cbn [bind]; [| |discriminate].
+  - intros H.
+    destruct (sb_open c pk nonce_sender_key_sbox (h_b h)) as [sender|]; [|discriminate].
+    destruct (negb (Nat.eqb (List.length sender) 32)); [discriminate|].
+    destruct (if bytes_eqb (h_a h) sender then _ else _) as [sa|]; cbn [bind] in H; [|discriminate].
+    destruct (mac_key_receiver c (h_version h) pos (fst k) (fst sa) (h_a h) hh) eqn:Emk; [|discriminate].
+    injection H as _ <-. cbn [ds_version]. exact (Hk _ _ _ _ _ _ _ Emk).
+  - destruct (try_hidden c (kr_keys kr) (h_version h) (h_a h) (h_rcvs h)) as [[[[k pk] pos]|]|e]; cbn [bind]; [| discriminate |discriminate].
+    intros H.
+    destruct (sb_open c pk nonce_sender_key_sbox (h_b h)) as [sender|]; [|discriminate].
+    destruct (negb (Nat.eqb (List.length sender) 32)); [discriminate|].
+    destruct (if bytes_eqb (h_a h) sender then _ else _) as [sa|]; cbn [bind] in H; [|discriminate].
+    destruct (mac_key_receiver c (h_version h) pos (fst k) (fst sa) (h_a h) hh) eqn:Emk; [|discriminate].
+    injection H as _ <-. cbn [ds_version]. exact (Hk _ _ _ _ _ _ _ Emk).
+Qed.
+End Loops.
+
+(* ================= getNextChunk on the objects the constructors return ================= *)
+(* The three lemmas of GoAstProofs4b.v are stated on receiver objects holding only the fields getNextChunk uses
+   (g_ds, g_sos, g_vs); the constructors return objects with MORE fields, in another order, and (verifyStream) the
+   key OBJECT in publicKey (g_ds_done, g_sos_done, g_vs_key).  The same proof scripts go through on these objects. *)
+
+Section ReplayDec.
+Variable c : crypto.
+Lemma go_decrypt_getNextChunk_obj (VV RING SK MK : gval) (st : dec_state) (n : N) (input : bytes) :
+  (vmaj (ds_version st) = 1 \/ vmaj (ds_version st) = 2)%Z ->
+  (n < 18446744073709551616)%N ->
+  let obj := fun mps => VStruct [("versionValidator", VV); ("ring", RING); ("mps", mps); ("version", g_version (ds_version st));
+           ("payloadKey", VBytes (ds_payload_key st)); ("senderKey", SK); ("headerHash", VBytes (ds_hh st)); ("macKey", VBytes (ds_mac_key st));
+           ("position", VInt (Z.of_N (ds_position st))); ("mki", MK)] in
+  chunk_spec "ds" g_chunk_nil (fun rest => obj (g_mps rest (n + 1)))
+             (dec_step c st n input)
+             (run_func2 (ext_chunk c TBytes) f_saltpack_decryptStream_getNextChunk [obj (g_mps input n)]).
+Proof.
+  intros Hv Hn obj. subst obj. cbv beta.
+  pose proof (blocknum_g n Hn) as Hbn. pose proof (seqno_next n) as Hsn.
+  unfold run_func2. cbn [f_params f_results f_saltpack_decryptStream_getNextChunk bind_params map app].
+  match goal with |- context [exec2 ?x 300 ?e ?b] => remember (exec2 x 300 e b) as R eqn:HR end.
+  symmetry in HR.
+  destruct st as [[ma mi] pkey mkey pos hh0]. cbn [ds_version vmaj] in *.
+  cbv beta iota zeta delta [f_body f_saltpack_decryptStream_getNextChunk] in HR.
+  unfold g_mps, g_mps_raw in HR. cbn [ds_version ds_payload_key ds_mac_key ds_position ds_hh] in HR.
+  unfold dec_step, read_packet. cbn [ds_version vmaj].
+  assert (Hvb : ((ma =? 1) || (ma =? 2))%Z = true) by (destruct Hv; subst ma; reflexivity).
+  rewrite Hvb. cbn [negb]. change ((ma =? 1) || (ma =? 2))%Z with (ver12 (mkV ma mi)) in Hvb.
+  assert (Hpos0 : (Z.of_N pos <? 0)%Z = false) by lia.
+  destruct (mp_read input) as [m rest| | |] eqn:Hmp.
+  2:{ run_hyp4 (ext_chunk c TBytes) HR; subst R; reflexivity. }
+  2:{ run_hyp4 (ext_chunk c TBytes) HR; subst R; reflexivity. }
+  2:{ run_hyp4 (ext_chunk c TBytes) HR; subst R; reflexivity. }
+  destruct (view_enc_block (mkV ma mi) m) as [[[auths ct] final]| |] eqn:Hview; cbn [of_dres].
+  2:{ run_hyp4 (ext_chunk c TBytes) HR; subst R; reflexivity. }
+  2:{ run_hyp4 (ext_chunk c TBytes) HR; subst R; reflexivity. }
+  pose proof (as_bytes_list_map auths) as Habl.
+  destruct (dec_block_step c (mkDec (mkV ma mi) pkey mkey pos hh0) n auths ct final) as [chunk|e] eqn:Hd.
+  2:{ unfold chunk_spec; destruct (GoAstProofs4b.g_err e) as [ev|] eqn:Hge;
+      [destruct (g_err_verr _ _ Hge) as (nm & ar & ->)|];
+      run_hyp4 (ext_chunk c TBytes) HR; subst R; reflexivity. }
+  destruct (check_chunk_state (mkV ma mi) (List.length chunk) n final) as [[]|e] eqn:Hc.
+  2:{ unfold chunk_spec; destruct (GoAstProofs4b.g_err e) as [ev|] eqn:Hge;
+      [destruct (g_err_verr _ _ Hge) as (nm & ar & ->)|];
+      destruct chunk as [|x chunk]; try (change (List.length (@nil byte)) with O in Hc); run_hyp4 (ext_chunk c TBytes) HR; subst R; reflexivity. }
+  destruct final.
+  - unfold chunk_spec; destruct (GoAstProofs4b.g_err (assert_end_of_stream rest)) as [ev|] eqn:Hge;
+      [destruct (g_err_verr _ _ Hge) as (nm & ar & ->)|];
+      destruct chunk as [|x chunk]; try (change (List.length (@nil byte)) with O in Hc); run_hyp4 (ext_chunk c TBytes) HR; subst R; reflexivity.
+  - destruct chunk as [|x chunk]; try (change (List.length (@nil byte)) with O in Hc); run_hyp4 (ext_chunk c TBytes) HR; subst R; (split; [reflexivity|]);
+      cbn [snd]; unfold g_mps, g_mps_raw; rewrite <- Hsn; reflexivity.
+Qed.
+End ReplayDec.
+
+(* verifyStream.processBlock on a receiver whose publicKey field holds the key OBJECT (as NewVerifyStream stores it):
+   the meaning GoAstProofs4b.ext_chunk gives it on the receiver holding the key's bytes *)
+Definition ext_chunk_key (c : crypto) (ty : read_target) : externs := fun fn args =>
+  if String.eqb fn "verifyStream.processBlock" then
+    match args with
+    | VStruct fs :: rest =>
+      match lookup "publicKey" fs with
+      | Some (VStruct [("spk", VBytes pk)]) => ext_chunk c ty fn (VStruct (set_field fs "publicKey" (VBytes pk)) :: rest)
+      | _ => None
+      end
+    | _ => None
+    end
+  else ext_chunk c ty fn args.
+
+Section ReplaySigVer.
+Variable c : crypto.
+
+Lemma go_signcrypt_getNextChunk_obj (KR RV : gval) (pkey hh : bytes) (signer : option bytes) (n : N) (input : bytes) :
+  (n < 18446744073709551616)%N ->
+  chunk_spec "sos" VBytes (fun rest => g_sos_done (g_mps rest (n + 1)) KR RV pkey hh signer)
+             (sc_step c pkey signer hh n input)
+             (run_func2 (ext_chunk c TSigncryptionBlock) f_saltpack_signcryptOpenStream_getNextChunk
+                        [g_sos_done (g_mps input n) KR RV pkey hh signer]).
+Proof.
+  intros Hn.
+  pose proof (blocknum_g n Hn) as Hbn. pose proof (seqno_next n) as Hsn.
+  unfold run_func2. cbn [f_params f_results f_saltpack_signcryptOpenStream_getNextChunk bind_params map app].
+  match goal with |- context [exec2 ?x 300 ?e ?b] => remember (exec2 x 300 e b) as R eqn:HR end.
+  symmetry in HR.
+  cbv beta iota zeta delta [f_body f_saltpack_signcryptOpenStream_getNextChunk] in HR.
+  unfold g_sos_done, g_signer, g_mps, g_mps_raw in HR.
+  unfold sc_step, read_packet. unfold bytes in *.
+  destruct (mp_read input) as [m rest| | |] eqn:Hmp.
+  2:{ destruct signer; run_hyp4 (ext_chunk c TSigncryptionBlock) HR; subst R; reflexivity. }
+  2:{ destruct signer; run_hyp4 (ext_chunk c TSigncryptionBlock) HR; subst R; reflexivity. }
+  2:{ destruct signer; run_hyp4 (ext_chunk c TSigncryptionBlock) HR; subst R; reflexivity. }
+  destruct (view_signcrypt_block m) as [[ct final]| |] eqn:Hview; cbn [of_dres].
+  2:{ destruct signer; run_hyp4 (ext_chunk c TSigncryptionBlock) HR; subst R; reflexivity. }
+  2:{ destruct signer; run_hyp4 (ext_chunk c TSigncryptionBlock) HR; subst R; reflexivity. }
+  destruct (sc_block_step c pkey hh signer n ct final) as [chunk|e] eqn:Hd.
+  2:{ unfold chunk_spec; destruct (GoAstProofs4b.g_err e) as [ev|] eqn:Hge;
+      [destruct (g_err_verr _ _ Hge) as (nm & ar & ->)|];
+      destruct signer; run_hyp4 (ext_chunk c TSigncryptionBlock) HR; subst R; reflexivity. }
+  change v2 with (mkV (Z.of_N 2) (Z.of_N 0)).
+  destruct (check_chunk_state (mkV (Z.of_N 2) (Z.of_N 0)) (List.length chunk) n final) as [[]|e] eqn:Hc.
+  2:{ unfold chunk_spec; destruct (GoAstProofs4b.g_err e) as [ev|] eqn:Hge;
+      [destruct (g_err_verr _ _ Hge) as (nm & ar & ->)|];
+      destruct signer; run_hyp4 (ext_chunk c TSigncryptionBlock) HR; subst R; reflexivity. }
+  destruct final.
+  - unfold chunk_spec; destruct (GoAstProofs4b.g_err (assert_end_of_stream rest)) as [ev|] eqn:Hge;
+      [destruct (g_err_verr _ _ Hge) as (nm & ar & ->)|];
+      destruct signer; run_hyp4 (ext_chunk c TSigncryptionBlock) HR; subst R; reflexivity.
+  - destruct signer; run_hyp4 (ext_chunk c TSigncryptionBlock) HR; subst R; (split; [reflexivity|]);
+      cbn [snd]; unfold g_sos_done, g_signer, g_mps, g_mps_raw; rewrite <- Hsn; reflexivity.
+Qed.
+
+Lemma go_verify_getNextChunk_obj (h : header) (pk hh : bytes) (n : N) (input : bytes) :
+  (vmaj (h_version h) = 1 \/ vmaj (h_version h) = 2)%Z ->
+  (n < 18446744073709551616)%N ->
+  chunk_spec "v" VBytes (fun rest => g_vs_key h hh pk (g_mps rest (n + 1)))
+             (verify_step c (h_version h) pk hh n input)
+             (run_func2 (ext_chunk_key c TBytes) f_saltpack_verifyStream_getNextChunk [g_vs_key h hh pk (g_mps input n)]).
+Proof.
+  intros Hv Hn.
+  pose proof (blocknum_g n Hn) as Hbn. pose proof (seqno_next n) as Hsn.
+  unfold run_func2. cbn [f_params f_results f_saltpack_verifyStream_getNextChunk bind_params map app].
+  match goal with |- context [exec2 ?x 300 ?e ?b] => remember (exec2 x 300 e b) as R eqn:HR end.
+  symmetry in HR.
+  destruct h as [fmt [ma mi] ty ea eb rcvs]. cbn [h_version vmaj] in *.
+  cbv beta iota zeta delta [f_body f_saltpack_verifyStream_getNextChunk] in HR.
+  unfold g_vs_key, g_spk, g_sig_header, g_mps, g_mps_raw in HR. cbn [h_format h_version h_type h_a h_b h_rcvs] in HR.
+  unfold verify_step, read_packet. cbn [vmaj].
+  assert (Hvb : ((ma =? 1) || (ma =? 2))%Z = true) by (destruct Hv; subst ma; reflexivity).
+  rewrite Hvb. cbn [negb]. change ((ma =? 1) || (ma =? 2))%Z with (ver12 (mkV ma mi)) in Hvb.
+  destruct (mp_read input) as [m rest| | |] eqn:Hmp.
+  2:{ run_hyp4 (ext_chunk_key c TBytes) HR; subst R; reflexivity. }
+  2:{ run_hyp4 (ext_chunk_key c TBytes) HR; subst R; reflexivity. }
+  2:{ run_hyp4 (ext_chunk_key c TBytes) HR; subst R; reflexivity. }
+  destruct (view_sig_block (mkV ma mi) m) as [[[sig chunk] final]| |] eqn:Hview; cbn [of_dres].
+  2:{ run_hyp4 (ext_chunk_key c TBytes) HR; subst R; reflexivity. }
+  2:{ run_hyp4 (ext_chunk_key c TBytes) HR; subst R; reflexivity. }
+  destruct (attached_sig_input c (mkV ma mi) hh chunk n final) as [inp|] eqn:Ea;
+    [|exfalso; unfold attached_sig_input in Ea; cbn [vmaj] in Ea; destruct Hv; subst ma; discriminate].
+  destruct (ed_verify c pk inp sig) eqn:Ev; cbn [negb].
+  2:{ run_hyp4 (ext_chunk_key c TBytes) HR; subst R; reflexivity. }
+  destruct (check_chunk_state (mkV ma mi) (List.length chunk) n final) as [[]|e] eqn:Hc.
+  2:{ unfold chunk_spec; destruct (GoAstProofs4b.g_err e) as [ev|] eqn:Hge;
+      [destruct (g_err_verr _ _ Hge) as (nm & ar & ->)|];
+      run_hyp4 (ext_chunk_key c TBytes) HR; subst R; reflexivity. }
+  destruct final.
+  - unfold chunk_spec; destruct (GoAstProofs4b.g_err (assert_end_of_stream rest)) as [ev|] eqn:Hge;
+      [destruct (g_err_verr _ _ Hge) as (nm & ar & ->)|];
+      run_hyp4 (ext_chunk_key c TBytes) HR; subst R; reflexivity.
+  - run_hyp4 (ext_chunk_key c TBytes) HR; subst R; (split; [reflexivity|]);
+      cbn [snd]; unfold g_vs_key, g_spk, g_sig_header, g_mps, g_mps_raw; rewrite <- Hsn; reflexivity.
+Qed.
+
+(* for any other major version readSignatureBlock panics: the evaluator is stuck at that call *)
+Lemma go_verify_getNextChunk_obj_bad_version (h : header) (pk hh : bytes) (mps : gval) :
+  ver12 (h_version h) = false ->
+  fst (run_func2 (ext_chunk_key c TBytes) f_saltpack_verifyStream_getNextChunk [g_vs_key h hh pk mps]) = OStuck "call".
+Proof.
+  intros Hvb.
+  unfold run_func2. cbn [f_params f_results f_saltpack_verifyStream_getNextChunk bind_params map app].
+  match goal with |- context [exec2 ?x 300 ?e ?b] => remember (exec2 x 300 e b) as R eqn:HR end.
+  symmetry in HR.
+  destruct h as [fmt [ma mi] ty ea eb rcvs]. cbn [h_version] in *.
+  cbv beta iota zeta delta [f_body f_saltpack_verifyStream_getNextChunk] in HR.
+  unfold g_vs_key, g_spk, g_sig_header in HR. cbn [h_format h_version h_type h_a h_b h_rcvs] in HR.
+  run_hyp4 (ext_chunk_key c TBytes) HR. subst R. reflexivity.
+Qed.
+End ReplaySigVer.
+
+
+Lemma vbytes_of_chunk_nil (b : bytes) : vbytes_of (g_chunk_nil b) = Some b.
+Proof. destruct b; reflexivity. Qed.
+Lemma vbytes_of_VBytes (b : bytes) : vbytes_of (VBytes b) = Some b.
+Proof. reflexivity. Qed.
+
+(* ================= 5. NewDecryptStream (C02, streaming) ================= *)
+Section DecStream.
+Variable c : crypto.
+Hypothesis Hc : crypto_ok c.
+Variable pm : bytes -> gval.
+Variables s_sk r_sk : bytes.
+
+(* (TARGET) *)
+Theorem go_NewDecryptStream_authentic (vd : validator) (senders : option (list bytes)) (VV r RING : gval) (input : bytes)
+        (mk rdr : gval) (L : list enc_msg) :
+  Forall (em_ok c s_sk) L -> em_headers_distinct c s_sk L ->
+  (N.of_nat (List.length input) < 18446744073709551616)%N ->
+  rdr_bytes r = Some input ->
+  let kr := mkRing [(r_sk, dh_pub c r_sk)] senders in
+  fst (run_func2 (ext_nds c pm vd kr) f_saltpack_NewDecryptStream [VV; r; RING]) = ORet [mk; rdr; VNil] ->
+  exists m k obj,
+    mk = g_mki m k /\ snd k = mki_receiver m /\ rdr = g_cr_new obj /\
+    (mki_sender m = dh_pub c s_sk -> mki_sender_anon m = false ->
+     forall F, (N.of_nat F <= 18446744073709551616)%N ->
+       let d := go_drain (ext_chunk c TBytes) f_saltpack_decryptStream_getNextChunk "ds" F obj in
+       exists chunks tl,
+         fst d = (chunks ++ tl)%list /\ (tl = [] \/ tl = [[]]) /\
+         ((chunks = [] /\ snd d <> Some (VErr "io.EOF" [])) \/
+          (exists msg hide pos,
+              In msg L /\ nth_error (em_rs msg) pos = Some (dh_pub c r_sk, hide) /\
+              list_prefix chunks (map fst (em_packets msg)) /\
+              (snd d = Some (VErr "io.EOF" []) -> chunks = map fst (em_packets msg)))
+          \/ EncBreakL c s_sk r_sk vd kr L input)).
+Proof.
+  intros HL Hd Hlen Hr kr Hgo.
+  rewrite (go_NewDecryptStream c pm vd kr VV r RING input Hr) in Hgo. unfold nds_outcome in Hgo.
+  pose proof (open_stream_header c vd kr input) as Hos.
+  destruct (dec_read_header c vd kr input) as [[[m st] rest]|e] eqn:Hh; cbn [bind fst snd] in Hos.
+  2:{ destruct (g_herr e) as [ev|] eqn:Hge; [|discriminate Hgo].
+      injection Hgo as _ _ ->. exfalso. exact (g_herr_not_nil e Hge). }
+  destruct (dec_header_key_some c vd kr input m st rest Hh) as (_ & k & Hk & Hks). rewrite Hk in Hgo.
+  injection Hgo as <- <-.
+  exists m, k, (g_ds_done VV RING (g_mps_raw rest 1) VNil m st k).
+  split; [reflexivity|]. split; [exact Hks|]. split; [reflexivity|].
+  intros Hs Ha F HF d.
+  (* facts about the header stage *)
+  assert (Hver : (vmaj (ds_version st) = 1 \/ vmaj (ds_version st) = 2)%Z /\ (List.length rest <= List.length input)%nat).
+  { revert Hh. unfold dec_read_header.
+    destruct (read_header_bytes input) as [[hb rest0]|e] eqn:Erh; cbn [bind fst snd]; [|discriminate].
+    destruct (decode_header view_enc_header hb) as [h|e]; cbn [bind]; [|discriminate].
+    destruct (process_enc_header c vd kr (sha512 c hb) h) as [[m' st']|e] eqn:Hp; cbn [bind]; [|discriminate].
+    intros H. injection H as _ <- <-. split; [exact (process_enc_header_ver12 c vd kr _ h m' st' Hp)|].
+    exact (read_header_bytes_suffix _ _ _ Erh). }
+  destruct Hver as [Hver Hrest].
+  pose proof (open_authentic_located c Hc s_sk r_sk vd senders input m _ L HL Hd Hlen Hos Hs Ha) as HA.
+  rewrite decrypt_loop_step_loop in HA. cbn [so_chunks so_end rev app] in HA.
+  set (Cand := fun full : list bytes => exists msg hide pos,
+                 In msg L /\ nth_error (em_rs msg) pos = Some (dh_pub c r_sk, hide) /\ full = map fst (em_packets msg)).
+  assert (HA' : auth_shape Cand (EncBreakL c s_sk r_sk vd kr L input)
+                           (fst (step_loop (dec_step c st) (S (List.length rest)) 0 rest))
+                           (snd (step_loop (dec_step c st) (S (List.length rest)) 0 rest) = EOF)).
+  { destruct HA as [H0|[(msg & hide & pos & Hin & Hn & Hp & Hall)|Hb]].
+    - left. exact H0.
+    - right; left. exists (map fst (em_packets msg)). split; [exists msg, hide, pos; repeat split; assumption|]. split; assumption.
+    - right; right. exact Hb. }
+  destruct (go_drain_auth (ext_chunk c TBytes) f_saltpack_decryptStream_getNextChunk "ds" (dec_step c st)
+              (dec_step_shrinks c st) g_chunk_nil
+              (fun n inp => g_ds_done VV RING (g_mps inp n) VNil m st k) vbytes_of_chunk_nil
+              (fun n inp Hn => go_decrypt_getNextChunk_obj c VV RING VNil (g_mki m k) st n inp Hver Hn)
+              Cand _ F (S (List.length rest)) 0%N rest ltac:(lia) ltac:(lia) HA')
+    as (chunks & tl & Hd1 & Htl & Hsh).
+  exists chunks, tl. split; [exact Hd1|]. split; [exact Htl|].
+  destruct Hsh as [H0|[(full & (msg & hide & pos & Hin & Hn & ->) & Hp & Hall)|Hb]].
+  - left. exact H0.
+  - right; left. exists msg, hide, pos. repeat split; assumption.
+  - right; right. exact Hb.
+Qed.
+End DecStream.
+
+(* a receiver whose first call is stuck releases nothing *)
+Lemma go_drain_stuck (ext : externs) (fn : gfunc) (recv : string) (obj : gval) (w : string) (F : nat) :
+  fst (run_func2 ext fn [obj]) = OStuck w -> go_drain ext fn recv F obj = ([], None).
+Proof. intros H. destruct F as [|F]; [reflexivity|]. cbn [go_drain]. cbv zeta. rewrite H. reflexivity. Qed.
+
+(* ================= 6. NewVerifyStream (C06, streaming) ================= *)
+Section VerStream.
+Variable c : crypto.
+Hypothesis Hsha : forall x, List.length (sha512 c x) = 64%nat.
+
+(* (TARGET) *)
+Theorem go_NewVerifyStream_authentic (vd : validator) (kr : sigring) (VV r KR : gval) (input : bytes)
+        (sg rdr : gval) (L : list sign_event) :
+  Forall event_ok L ->
+  (N.of_nat (List.length input) < 18446744073709551616)%N ->
+  rdr_bytes r = Some input ->
+  fst (run_func2 (ext_NVS c vd kr) f_saltpack_NewVerifyStream [VV; r; KR]) = ORet [sg; rdr; VNil] ->
+  exists pk obj,
+    sg = g_spk pk /\ rdr = g_cr_new obj /\
+    (headers_distinct pk L -> (len pk < 4294967296)%N ->
+     forall F, (N.of_nat F <= 18446744073709551616)%N ->
+       let d := go_drain (ext_chunk_key c TBytes) f_saltpack_verifyStream_getNextChunk "v" F obj in
+       exists chunks tl,
+         fst d = (chunks ++ tl)%list /\ (tl = [] \/ tl = [[]]) /\
+         ((chunks = [] /\ snd d <> Some (VErr "io.EOF" [])) \/
+          (exists v nonce ps,
+              In (EvAttached v nonce ps) L /\
+              list_prefix chunks (map fst ps) /\
+              (snd d = Some (VErr "io.EOF" []) -> chunks = map fst ps))
+          \/ AttBreak c vd pk L input)).
+Proof.
+  intros HL Hlen Hr Hgo.
+  rewrite (go_NewVerifyStream c vd kr VV r KR input Hr) in Hgo. unfold nvs_outcome in Hgo.
+  assert (Hvs : verify_stream c vd kr input =
+                bind (verify_read_header c vd mt_attached input) (fun x =>
+                  let '(h, hh, rest) := x in
+                  match lookup_signer kr (h_a h) with
+                  | None => Err ErrNoSenderKey
+                  | Some pk => Ok (pk, verify_loop c (S (List.length rest)) (h_version h) pk hh 0 rest [])
+                  end)) by reflexivity.
+  destruct (verify_read_header c vd mt_attached input) as [[[h hh] rest]|e] eqn:Hh; cbn [bind] in Hvs.
+  2:{ destruct (g_herr e) as [ev|] eqn:Hge; [|discriminate Hgo].
+      injection Hgo as _ _ ->. exfalso. exact (g_herr_not_nil e Hge). }
+  destruct (lookup_signer kr (h_a h)) as [pk|] eqn:Hls; [|discriminate Hgo].
+  injection Hgo as <- <-.
+  exists pk, (g_vs_key h hh pk (g_mps_raw rest 1)). split; [reflexivity|]. split; [reflexivity|].
+  intros Hd Hpk F HF d.
+  assert (Hrest : (List.length rest <= List.length input)%nat).
+  { revert Hh. unfold verify_read_header.
+    destruct (read_header_bytes input) as [[hb rest0]|e] eqn:Erh; cbn [bind fst snd]; [|discriminate].
+    destruct (decode_header view_sig_header hb) as [h'|e]; cbn [bind]; [|discriminate].
+    destruct (validate_sig_header vd mt_attached h'); cbn [bind]; [|discriminate].
+    intros H. injection H as _ _ <-. exact (read_header_bytes_suffix _ _ _ Erh). }
+  destruct (ver12 (h_version h)) eqn:Hvb.
+  2:{ (* another major version: readSignatureBlock panics, the first call is stuck, nothing is released *)
+      subst d. rewrite (go_drain_stuck _ _ _ _ _ F (go_verify_getNextChunk_obj_bad_version c h pk hh _ Hvb)).
+      exists [], []. split; [reflexivity|]. split; [left; reflexivity|]. left. split; [reflexivity|discriminate]. }
+  assert (Hver : (vmaj (h_version h) = 1 \/ vmaj (h_version h) = 2)%Z).
+  { unfold ver12 in Hvb. apply orb_true_iff in Hvb. destruct Hvb as [E|E]; apply Z.eqb_eq in E; auto. }
+  pose proof (attached_authentic_located c Hsha vd kr input pk _ L HL Hd Hlen Hpk Hvs) as HA.
+  rewrite verify_loop_step_loop in HA. cbn [so_chunks so_end rev app] in HA.
+  set (Cand := fun full : list bytes => exists v nonce ps, In (EvAttached v nonce ps) L /\ full = map fst ps).
+  assert (HA' : auth_shape Cand (AttBreak c vd pk L input)
+                           (fst (step_loop (verify_step c (h_version h) pk hh) (S (List.length rest)) 0 rest))
+                           (snd (step_loop (verify_step c (h_version h) pk hh) (S (List.length rest)) 0 rest) = EOF)).
+  { destruct HA as [H0|[(v & nonce & ps & Hin & Hp & Hall)|Hb]].
+    - left. exact H0.
+    - right; left. exists (map fst ps). split; [exists v, nonce, ps; split; [assumption|reflexivity]|]. split; assumption.
+    - right; right. exact Hb. }
+  destruct (go_drain_auth (ext_chunk_key c TBytes) f_saltpack_verifyStream_getNextChunk "v" (verify_step c (h_version h) pk hh)
+              (verify_step_shrinks c (h_version h) pk hh) VBytes
+              (fun n inp => g_vs_key h hh pk (g_mps inp n)) vbytes_of_VBytes
+              (fun n inp Hn => go_verify_getNextChunk_obj c h pk hh n inp Hver Hn)
+              Cand _ F (S (List.length rest)) 0%N rest ltac:(lia) ltac:(lia) HA')
+    as (chunks & tl & Hd1 & Htl & Hsh).
+  exists chunks, tl. split; [exact Hd1|]. split; [exact Htl|].
+  destruct Hsh as [H0|[(full & (v & nonce & ps & Hin & ->) & Hp & Hall)|Hb]].
+  - left. exact H0.
+  - right; left. exists v, nonce, ps. repeat split; assumption.
+  - right; right. exact Hb.
+Qed.
+End VerStream.
+
+(* ================= 7. NewSigncryptOpenStream (C04, streaming) ================= *)
+Section ScStream.
+Variable c : crypto.
+Hypothesis Hsha : forall x, List.length (sha512 c x) = 64%nat.
+
+Lemma sc_read_header_rest (kr : keyring) (signers : sigring) (rv : resolver) (input : bytes) pkey signer hh rest :
+  sc_read_header c kr signers rv input = Ok (pkey, signer, hh, rest) -> (List.length rest <= List.length input)%nat.
+Proof.
+  unfold sc_read_header.
+  destruct (read_header_bytes input) as [[hb rest0]|e] eqn:Erh; cbn [bind fst snd]; [|discriminate].
+  destruct (decode_header view_enc_header hb) as [h'|e]; cbn [bind]; [|discriminate].
+  destruct (process_sc_header c kr signers rv h'); cbn [bind]; [|discriminate].
+  intros H. injection H as _ _ _ <-. exact (read_header_bytes_suffix _ _ _ Erh).
+Qed.
+
+(* (TARGET) named sender *)
+Theorem go_NewSigncryptOpenStream_authentic (kr : keyring) (signers : sigring) (rv : resolver) (r KR RV : gval) (input pk : bytes)
+        (rdr : gval) (M : list sc_msg) (others : list sign_event) :
+  Forall sm_ok M -> sm_headers_distinct M -> Forall other_ok others ->
+  (N.of_nat (List.length input) < 18446744073709551616)%N ->
+  rdr_bytes r = Some input ->
+  fst (run_func2 (ext_nsos c kr signers rv) f_saltpack_NewSigncryptOpenStream [r; KR; RV]) = ORet [VBytes pk; rdr; VNil] ->
+  exists obj,
+    rdr = g_cr_new obj /\
+    forall F, (N.of_nat F <= 18446744073709551616)%N ->
+      let d := go_drain (ext_chunk c TSigncryptionBlock) f_saltpack_signcryptOpenStream_getNextChunk "sos" F obj in
+      exists chunks tl,
+        fst d = (chunks ++ tl)%list /\ (tl = [] \/ tl = [[]]) /\
+        ((chunks = [] /\ snd d <> Some (VErr "io.EOF" [])) \/
+         (exists m hb rest,
+             In m M /\ read_header_bytes input = Ok (hb, rest) /\ hb = sm_header m /\
+             list_prefix chunks (map fst (sm_packets m)) /\
+             (snd d = Some (VErr "io.EOF" []) -> chunks = map fst (sm_packets m)))
+         \/ ScBreakL c kr signers rv pk M others input).
+Proof.
+  intros HM Hd Ho Hlen Hr Hgo.
+  rewrite (go_NewSigncryptOpenStream c kr signers rv r KR RV input Hr) in Hgo. unfold nsos_outcome in Hgo.
+  pose proof (signcrypt_open_stream_header c kr signers rv input) as Hos.
+  destruct (sc_read_header c kr signers rv input) as [[[[pkey signer] hh] rest]|e] eqn:Hh; cbn [bind] in Hos.
+  2:{ destruct (g_herr e) as [ev|] eqn:Hge; [|discriminate Hgo].
+      injection Hgo as _ _ ->. exfalso. exact (g_herr_not_nil e Hge). }
+  destruct signer as [pk'|]; cbn [g_signer] in Hgo; [|discriminate Hgo].
+  injection Hgo as -> <-.
+  exists (g_sos_done (g_mps_raw rest 1) KR RV pkey hh (Some pk)). split; [reflexivity|].
+  intros F HF d.
+  pose proof (sc_read_header_rest kr signers rv input _ _ _ _ Hh) as Hrest.
+  pose proof (signcrypt_authentic_located c Hsha kr signers rv input pk _ M others HM Hd Ho Hlen Hos) as HA.
+  rewrite sc_open_loop_step_loop in HA. cbn [so_chunks so_end rev app] in HA.
+  set (Cand := fun full : list bytes => exists m hb rest',
+                 In m M /\ read_header_bytes input = Ok (hb, rest') /\ hb = sm_header m /\ full = map fst (sm_packets m)).
+  assert (HA' : auth_shape Cand (ScBreakL c kr signers rv pk M others input)
+                           (fst (step_loop (sc_step c pkey (Some pk) hh) (S (List.length rest)) 0 rest))
+                           (snd (step_loop (sc_step c pkey (Some pk) hh) (S (List.length rest)) 0 rest) = EOF)).
+  { destruct HA as [H0|[(m & hb & rest' & Hin & Hrh & Hhb & Hp & Hall)|Hb]].
+    - left. exact H0.
+    - right; left. exists (map fst (sm_packets m)). split; [exists m, hb, rest'; repeat split; assumption|]. split; assumption.
+    - right; right. exact Hb. }
+  destruct (go_drain_auth (ext_chunk c TSigncryptionBlock) f_saltpack_signcryptOpenStream_getNextChunk "sos" (sc_step c pkey (Some pk) hh)
+              (sc_step_shrinks c pkey (Some pk) hh) VBytes
+              (fun n inp => g_sos_done (g_mps inp n) KR RV pkey hh (Some pk)) vbytes_of_VBytes
+              (fun n inp Hn => go_signcrypt_getNextChunk_obj c KR RV pkey hh (Some pk) n inp Hn)
+              Cand _ F (S (List.length rest)) 0%N rest ltac:(lia) ltac:(lia) HA')
+    as (chunks & tl & Hd1 & Htl & Hsh).
+  exists chunks, tl. split; [exact Hd1|]. split; [exact Htl|].
+  destruct Hsh as [H0|[(full & (m & hb & rest' & Hin & Hrh & Hhb & ->) & Hp & Hall)|Hb]].
+  - left. exact H0.
+  - right; left. exists m, hb, rest'. repeat split; assumption.
+  - right; right. exact Hb.
+Qed.
+
+Hypothesis Hsb : forall k n m, sb_open c k n (sb_seal c k n m) = Some m.
+
+(* (TARGET) anonymous sender *)
+Theorem go_NewSigncryptOpenStream_anonymous_authentic (kr : keyring) (signers : sigring) (rv : resolver) (r KR RV : gval)
+        (input : bytes) (rdr : gval) (M : list sc_anon_msg) :
+  Forall sam_ok M -> sam_headers_distinct M ->
+  (N.of_nat (List.length input) < 18446744073709551616)%N ->
+  rdr_bytes r = Some input ->
+  fst (run_func2 (ext_nsos c kr signers rv) f_saltpack_NewSigncryptOpenStream [r; KR; RV]) = ORet [VNil; rdr; VNil] ->
+  exists obj,
+    rdr = g_cr_new obj /\
+    forall F, (N.of_nat F <= 18446744073709551616)%N ->
+      let d := go_drain (ext_chunk c TSigncryptionBlock) f_saltpack_signcryptOpenStream_getNextChunk "sos" F obj in
+      exists chunks tl,
+        fst d = (chunks ++ tl)%list /\ (tl = [] \/ tl = [[]]) /\
+        ((chunks = [] /\ snd d <> Some (VErr "io.EOF" [])) \/
+         (exists m hb rest,
+             In m M /\ read_header_bytes input = Ok (hb, rest) /\ hb = sam_header m /\
+             sc_receiver_state c kr signers rv input = Some (sha512 c hb, sam_pkey m, rest) /\
+             list_prefix chunks (map fst (sam_packets m)) /\
+             (snd d = Some (VErr "io.EOF" []) -> chunks = map fst (sam_packets m)))
+         \/ ScAnonBreakL c kr signers rv M input).
+Proof.
+  intros HM Hd Hlen Hr Hgo.
+  rewrite (go_NewSigncryptOpenStream c kr signers rv r KR RV input Hr) in Hgo. unfold nsos_outcome in Hgo.
+  pose proof (signcrypt_open_stream_header c kr signers rv input) as Hos.
+  destruct (sc_read_header c kr signers rv input) as [[[[pkey signer] hh] rest]|e] eqn:Hh; cbn [bind] in Hos.
+  2:{ destruct (g_herr e) as [ev|] eqn:Hge; [|discriminate Hgo].
+      injection Hgo as _ ->. exfalso. exact (g_herr_not_nil e Hge). }
+  destruct signer as [pk'|]; cbn [g_signer] in Hgo; [discriminate Hgo|].
+  injection Hgo as <-.
+  exists (g_sos_done (g_mps_raw rest 1) KR RV pkey hh None). split; [reflexivity|].
+  intros F HF d.
+  pose proof (sc_read_header_rest kr signers rv input _ _ _ _ Hh) as Hrest.
+  pose proof (signcrypt_anon_authentic_located c Hsha Hsb kr signers rv input _ M HM Hd Hos) as HA.
+  rewrite sc_open_loop_step_loop in HA. cbn [so_chunks so_end rev app] in HA.
+  set (Cand := fun full : list bytes => exists m hb rest',
+                 In m M /\ read_header_bytes input = Ok (hb, rest') /\ hb = sam_header m /\
+                 sc_receiver_state c kr signers rv input = Some (sha512 c hb, sam_pkey m, rest') /\
+                 full = map fst (sam_packets m)).
+  assert (HA' : auth_shape Cand (ScAnonBreakL c kr signers rv M input)
+                           (fst (step_loop (sc_step c pkey None hh) (S (List.length rest)) 0 rest))
+                           (snd (step_loop (sc_step c pkey None hh) (S (List.length rest)) 0 rest) = EOF)).
+  { destruct HA as [H0|[(m & hb & rest' & Hin & Hrh & Hhb & Hst & Hp & Hall)|Hb]].
+    - left. exact H0.
+    - right; left. exists (map fst (sam_packets m)). split; [exists m, hb, rest'; repeat split; assumption|]. split; assumption.
+    - right; right. exact Hb. }
+  destruct (go_drain_auth (ext_chunk c TSigncryptionBlock) f_saltpack_signcryptOpenStream_getNextChunk "sos" (sc_step c pkey None hh)
+              (sc_step_shrinks c pkey None hh) VBytes
+              (fun n inp => g_sos_done (g_mps inp n) KR RV pkey hh None) vbytes_of_VBytes
+              (fun n inp Hn => go_signcrypt_getNextChunk_obj c KR RV pkey hh None n inp Hn)
+              Cand _ F (S (List.length rest)) 0%N rest ltac:(lia) ltac:(lia) HA')
+    as (chunks & tl & Hd1 & Htl & Hsh).
+  exists chunks, tl. split; [exact Hd1|]. split; [exact Htl|].
+  destruct Hsh as [H0|[(full & (m & hb & rest' & Hin & Hrh & Hhb & Hst & ->) & Hp & Hall)|Hb]].
+  - left. exact H0.
+  - right; left. exists m, hb, rest'. repeat split; assumption.
+  - right; right. exact Hb.
+Qed.
+End ScStream.
+
+(* ================= the streaming statements on concrete inputs (toy primitives of GoAstProofs7c.v) ================= *)
+(* run a constructor, take the receiver object out of the chunk reader it returns, drain it with at most F calls *)
+Definition go_stream (ext_ctor : externs) (ctor : gfunc) (args : list gval) (ext : externs) (fn : gfunc) (recv : string) (F : nat)
+  : option (gval * (list bytes * option gval)) :=
+  match fst (run_func2 ext_ctor ctor args) with
+  | ORet [x; VStruct [("chunker", obj); ("prevChunk", VNil); ("prevErr", VNil)]; VNil] => Some (x, go_drain ext fn recv F obj)
+  | _ => None
+  end.
+(* genuine attached signature / encryption / signcryption: the message, then io.EOF; a truncated signature: nothing and
+   io.ErrUnexpectedEOF (with the nil chunk of that call); trailing garbage after a signcrypted message: the chunk with
+   ErrTrailingGarbage; one call only: the chunk (non-final packets would go on), no ending yet *)
+Example ex_streams :
+  go_stream (ext_NVS toy7c AnyKnownMajor [x7c_spk]) f_saltpack_NewVerifyStream [VNil; VBytes x7c_att; VNil]
+            (ext_chunk_key toy7c TBytes) f_saltpack_verifyStream_getNextChunk "v" 5
+  = Some (g_spk x7c_spk, ([[x68; x69]], Some (VErr "io.EOF" [])))
+  /\ go_stream (ext_NVS toy7c AnyKnownMajor [x7c_spk]) f_saltpack_NewVerifyStream [VNil; VBytes (firstn 130 x7c_att); VNil]
+            (ext_chunk_key toy7c TBytes) f_saltpack_verifyStream_getNextChunk "v" 5
+  = Some (g_spk x7c_spk, ([[]], Some (VErr "io.ErrUnexpectedEOF" [])))
+  /\ option_map snd (go_stream (ext_nds toy7c (fun _ => VNil) AnyKnownMajor x7c_kr) f_saltpack_NewDecryptStream [VNil; VBytes x7c_ct; VNil]
+            (ext_chunk toy7c TBytes) f_saltpack_decryptStream_getNextChunk "ds" 5)
+  = Some ([[x68; x69]], Some (VErr "io.EOF" []))
+  /\ go_stream (ext_nsos toy7c x7c_kr [x7c_spk] None) f_saltpack_NewSigncryptOpenStream [VBytes x7c_sc; VNil; VNil]
+            (ext_chunk toy7c TSigncryptionBlock) f_saltpack_signcryptOpenStream_getNextChunk "sos" 5
+  = Some (VBytes x7c_spk, ([[x68; x69]], Some (VErr "io.EOF" [])))
+  /\ option_map snd (go_stream (ext_nsos toy7c x7c_kr [x7c_spk] None) f_saltpack_NewSigncryptOpenStream [VBytes (x7c_sc ++ [x01])%list; VNil; VNil]
+            (ext_chunk toy7c TSigncryptionBlock) f_saltpack_signcryptOpenStream_getNextChunk "sos" 5)
+  = Some ([[x68; x69]], Some (VErr "ErrTrailingGarbage" []))
+  /\ option_map snd (go_stream (ext_nsos toy7c x7c_kr [x7c_spk] None) f_saltpack_NewSigncryptOpenStream [VBytes x7c_sc; VNil; VNil]
+            (ext_chunk toy7c TSigncryptionBlock) f_saltpack_signcryptOpenStream_getNextChunk "sos" 0)
+  = Some ([], None).
+Proof. vm_compute. repeat split. Qed.
+
+
 Print Assumptions go_Open_authentic.
 Print Assumptions go_Open_authentic_nil_error.
 Print Assumptions go_Verify_authentic.
@@ -441,3 +1277,7 @@ Print Assumptions go_SigncryptOpen_authentic.
 Print Assumptions go_SigncryptOpen_authentic_nil_error.
 Print Assumptions go_SigncryptOpen_anonymous_authentic.
 Print Assumptions go_SigncryptOpen_anonymous_authentic_nil_error.
+Print Assumptions go_NewDecryptStream_authentic.
+Print Assumptions go_NewVerifyStream_authentic.
+Print Assumptions go_NewSigncryptOpenStream_authentic.
+Print Assumptions go_NewSigncryptOpenStream_anonymous_authentic.
